@@ -36,6 +36,9 @@ CLAIMED = {
  "C12": ("exhaustive + randomized differential monitor of the codec against an independent reference decoder/encoder",
          "All 16.8M byte strings of length <= 3 are enumerated on every run, plus operand-class, truncation, trailing-byte, mutated and random-instruction-list cases; each is checked for decodability agreement, both round trips, and weight/hash equality bytes vs instructions vs reference.",
          "Exhaustive only up to 3 bytes; longer inputs are sampled. The reference decoder was written from the opcode table.", "6/C12"),
+ "C13": ("stake-model monitor: registry, vote tallies and stake commitment compared after every batch/block, plus spend attempts on every stake coin across real epoch boundaries",
+         "Histories fabricated 1-3 blocks before k*200000 on networks/heights outside the legacy windows, with pre-existing stakes ending in the current/next/later epochs and stake transactions in every ordering of (current,start,end), amount mismatches, wrong denominations and undecodable documents; registered set, votes()/total_votes() over 5 epochs and stakes_hash follow the model; each registered stake's coin is refused (same batch, same block, later blocks) until the epoch after `end`, then accepted.",
+         "Legacy windows (mainnet/testnet below 500000/900000) are outside the property's domain and exercised under C09.", "6/C13"),
  "C14": ("exhaustive subset enumeration monitor on SealedState::confirm over fabricated stake distributions",
          "For every weight tuple from {1,2,3,5,8}^n (n<=4 exhaustive, n=5,6 sampled) every signer subset is confirmed against real signatures and compared with the 2/3 rule in exact arithmetic; corrupted, swapped, foreign and truncated signatures must never confirm; supersets never un-confirm.",
          "Stake sets are fabricated through from_block; ed25519 is trusted.", "6/C14"),
@@ -48,6 +51,9 @@ CLAIMED = {
  "C17": ("enumerating monitor of header().fee_multiplier across seal(Some(delta)) against an exact big-integer step",
          "All 256 deltas x multipliers 0..300 and around every power of two up to 2^70, before and after TIP-901, plus long runs of extreme deltas; exact expected value, no wrap, no panic, and unchanged without an action.",
          "Multipliers beyond 2^70 are checked for totality and direction only.", "6/C17"),
+ "C19": ("exactly-once monitor over faucet application histories on all nine networks with replay at every later point and after restart",
+         "Faucet transactions of many shapes (0-255 outputs, all denominations, the grandfathered mainnet transaction on every network) are applied and replayed in the same batch, a later batch of the same block, 1-30 blocks later, with a different sigs field, inside other batches, and after a from_block restart on a copied store; on mainnet only the grandfathered hash may be accepted, elsewhere each hash at most once per lineage.",
+         "Repeated acceptance of the grandfathered transaction on mainnet itself is outside the property's wording and is not flagged.", "6/C19"),
  "C20": ("structural invariant monitor: census of the coin tree versus its count entries after every accepted batch, seal and next_unsealed",
          "Histories of all kinds on custom networks (TIP-906 from genesis) and testnet/mainnet histories fabricated just below the activation height and run across it; for every covenant hash the count entry must equal the number of unspent coins, with no orphan or zero entry; the activation census is checked at the boundary.",
          "Entries are classified by serialized shape (coin vs u64 count).", "6/C20"),
